@@ -375,10 +375,15 @@ func callOrder(fd *ast.FuncDecl, names []string) []string {
 // fileUses lists, in source order, every call on a value of type *os.File ("file.Write") and every call
 // that is handed such a value ("arg:WriteTo", "arg:Fprintf"); "@loop" marks calls inside a loop.
 func fileUses(fd *ast.FuncDecl, p *packages.Package) []string {
+	return typedUses(fd, p, "*os.File", "file")
+}
+
+// typedUses is fileUses for any type: calls on, and calls handed, a value whose type prints as typ.
+func typedUses(fd *ast.FuncDecl, p *packages.Package, typ, label string) []string {
 	var r []string
 	isFile := func(e ast.Expr) bool {
 		t := p.TypesInfo.TypeOf(e)
-		return t != nil && t.String() == "*os.File"
+		return t != nil && t.String() == typ
 	}
 	var walk func(n ast.Node, loop bool)
 	walk = func(n ast.Node, loop bool) {
@@ -400,7 +405,7 @@ func fileUses(fd *ast.FuncDecl, p *packages.Package) []string {
 					suffix = "@loop"
 				}
 				if sel, ok := x.Fun.(*ast.SelectorExpr); ok && isFile(sel.X) {
-					r = append(r, "file."+sel.Sel.Name+suffix)
+					r = append(r, label+"."+sel.Sel.Name+suffix)
 				}
 				for _, a := range x.Args {
 					if isFile(a) {
